@@ -10,9 +10,14 @@
   deg2gon models of C18, standard deviations and covariance rows in sexagesimal seconds), for an exact codec on the
   representable numbers and for a printer with finitely many digits (quantisation); the hypothesis `Net.WF` is decidable;
   what the exported coordinates are (refine_approx_coordinates) and when re-adjusting the export reproduces the
-  adjustment with zero iterations (refine_adjustment).  Explored only (tools/props/c13.py): the digits gama prints, the
-  adjustment itself (the theorems take it as a function of the network, which is what C01 / C04 / C05 / C09 prove of its
-  parts), n = 1, 2, 3 rounds.
+  adjustment with zero iterations (refine_adjustment).  In THIS file the adjustment is a function of the network
+  (`adj` / `step`, abstract) and the codec a parameter; the three items that used to be explored only have theorems in
+  the sibling files: the digits gama prints — `Props/C13Codec.lean` (`realCodec` over ℚ: `%.pg`, `%.16e` for `<cov-mat>`,
+  the sexagesimal text; `C13_real_codec_printer`, `C13_roundtrip_network_real`, the regenerated per-site formats
+  `C13_number_sites_formats`); the adjustment itself — `Props/C13Rerun.lean` (`C13_rerun_zero_iterations` for the real
+  loop `RA.refineAdjustment`, `C13_rerun_zero_iterations_project_equations` for `PE.projectEquations` + `netSolve`,
+  `C13_readjustment_identical_real`; exact codec); n rounds — `C13_rounds_fixed`, `C13_rounds_fixed_printer`,
+  `C13_rerun_rounds` (every n).  tools/props/c13.py still samples all three on the real program.
 -/
 import Gama.Lemmas.Export
 import Gama.Lemmas.ExportNet
@@ -86,9 +91,13 @@ theorem C13_F21_witness (F : NumFmt K) (hF : F.LawfulOn R) (x : K) (hx : R x) :
 
   Full statement of the property on the model: for every network `n` the parser can have produced,
   `parseNet (exportNet n) = ok (canon n)` and `exportNet (canon n) = exportNet n`, where `canon` drops the points without
-  any status (export_xml skips them).  Proved below for output in gons (`Net.WF.gons`).  Missing for the `_partial`
-  theorems: output in degrees (`angles="360"`): the model writes and reads sexagesimal values, standard deviations and
-  (repaired export, finding F26) covariances, but the inverse law is proved for gons only. -/
+  any status (export_xml skips them).  Proved below (`C13_roundtrip_network`, `C13_fixed_point_network`) for output in gons
+  AND in degrees (`angles="360"`: the model writes and reads sexagesimal values, standard deviations and — repaired
+  export, finding F26 — covariances in seconds; the inverse law for them is the hypothesis `Codec.DegLawfulOn Rd`, see
+  the section "output in degrees" below: `C13_roundtrip_obs_degrees`, `C13_roundtrip_obs_cluster_degrees`; the real
+  sexagesimal codec satisfies it on `DegDom` after quantisation, `Props/C13Codec.lean`).  The two `_partial` theorems
+  that remain (`C13_export_coordinates_are_adjusted_partial`, `C13_parser_establishes_wf_partial`) are partial for
+  reasons stated in their own docstrings, not because of the angular unit. -/
 
 /-- points: same id, same status per coordinate group (fixed / free / constrained / unused for xy and for z, written as
     `fix=` / `adj=` letters in upper or lower case), same coordinates, y through `y_sign()` on the way out and
